@@ -1,0 +1,108 @@
+//go:build verif
+
+package rewrite
+
+// Machine-checked contracts for the gocv verifier (/verif/DESIGN.md). Comments only.
+// go/token facts are trusted: Position(p).Offset is the byte offset of p in the file that was read (offOf),
+// Body.Pos() is the position of "{", Body.End() one past "}".
+
+//@ spec offOf(int, int) int
+//@ spec fileOf(int, int) string
+//@ trusted (*go/token.FileSet).Position(p) (pos)
+//@   ensures pos.Offset == offOf(recv, p) && pos.Filename == fileOf(recv, p)
+//@   nopanic
+//@   pure
+//@ trusted (*go/ast.BlockStmt).Pos() (p)
+//@   ensures 0 <= p && p < 4611686018427387904
+//@   nopanic
+//@   pure
+//@ trusted (*go/ast.BlockStmt).End() (p)
+//@   ensures 0 <= p && p < 4611686018427387904
+//@   nopanic
+//@   pure
+//@ trusted (go/ast.Node).Pos() (p)
+//@   pure
+//@ trusted (go/ast.Node).End() (p)
+//@   pure
+//@ trusted (*go/ast.File).Pos() (p)
+//@   pure
+//@ trusted (*go/ast.CommentGroup).Text() (s)
+//@   pure
+//@ trusted path/filepath.Abs(p) (s, err)
+//@   pure
+//@ trusted strconv.Unquote(s) (t, err)
+//@   pure
+//@ trusted strings.TrimSpace(s) (t)
+//@   pure
+//@ trusted (*bytes.Buffer).WriteString(s) (n, err)
+//@   modifies nothing
+//@ trusted (*bytes.Buffer).String() (s)
+//@   pure
+//@ trusted os.ReadFile(name) (b, err)
+//@   modifies nothing
+//@ trusted fmt.Errorf(format, a) (err)
+//@   ensures err != nil
+//@   pure
+
+// getSource(a, b) is exactly the bytes of the file between the offsets of a and b.
+//@ func (*Rewriter).getFile [C19]
+//@   requires r != nil
+//@   modifies maps
+//@   ensures calls(ReadFile) <= 1
+//@ func (*Rewriter).getSource [C19]
+//@   requires r != nil && r.pkg != nil
+//@   stable Rewriter.pkg
+//@   ghost so = 0
+//@   ghost eo = 0
+//@   ghost file = ""
+//@   at `r.pkg.Fset.Position(start)` requires arg0 == start
+//@   at `r.pkg.Fset.Position(start)` ghost so = callres0.Offset
+//@   at `r.pkg.Fset.Position(end)` requires arg0 == end
+//@   at `r.pkg.Fset.Position(end)` ghost eo = callres0.Offset
+//@   at `r.getFile(startPos.Filename)` ghost file = callres0
+//@   ensures res0 == file[so:eo]
+//@   ensures calls(getFile) == 1
+
+// The body handed to the template is the source strictly between the braces of the previous declaration.
+//@ func (*Rewriter).GetMethodBody [C19]
+//@   requires r != nil && r.pkg != nil
+//@   stable Rewriter.pkg
+//@   ghost bp = 0
+//@   ghost be = 0
+//@   ghost found = false
+//@   at `r.GetPrevDecl(structname, methodname)` requires arg0 == structname && arg1 == methodname
+//@   at `r.GetPrevDecl(structname, methodname)` ghost found = callres0 != nil
+//@   at `d.Body.Pos()` ghost bp = callres0
+//@   at `d.Body.End()` ghost be = callres0
+//@   at! `r.getSource(d.Body.Pos()+1, d.Body.End()-1)` requires arg0 == bp + 1 && arg1 == be - 1
+//@   ensures !found ==> res0 == "" && calls(getSource) == 0
+//@   ensures found ==> calls(getSource) == 1
+//@ func (*Rewriter).GetMethodComment [C19]
+//@   requires r != nil && r.pkg != nil
+//@   at `r.GetPrevDecl(structname, methodname)` requires arg0 == structname && arg1 == methodname
+//@   ensures calls(GetPrevDecl) == 1
+
+// GetPrevDecl: the declaration returned (and marked as carried over) is a method with the requested name whose
+// receiver base type is the requested struct; nothing is marked when nothing is returned.
+//@ func (*Rewriter).GetPrevDecl [C19]
+//@   requires r != nil && r.pkg != nil
+//@   at! `assign r.copied[d]` requires rhs0 && d.Name.Name == methodname && ident.Name == structname
+//@   ensures calls(Position) == 0
+
+// Everything the user had that was not carried over ends up in the remaining-source block: each declaration of the
+// file that is neither marked copied nor an import declaration is written (its exact source range) exactly once.
+//@ func (*Rewriter).RemainingSource [C19]
+//@   requires r != nil && r.pkg != nil
+//@   stable Rewriter.copied Rewriter.pkg
+//@   ghost wrote = 0
+//@   at `d.Pos()` requires !r.copied[d]
+//@   at! `r.getSource(d.Pos(), d.End())` requires !r.copied[d]
+//@   at! `buf.WriteString(r.getSource(d.Pos(), d.End()))` ghost wrote = wrote + 1
+//@   loop 2: step wrote == prev(wrote) + ite(prev(!r.copied[range2[idx2]] && !(isType(range2[idx2], "*go/ast.GenDecl") && range2[idx2].(*ast.GenDecl).Tok == token.IMPORT)), 1, 0)
+
+// ExistingImports: one entry per import spec, in order, with its alias (or none) and path.
+//@ func (*Rewriter).ExistingImports [C19]
+//@   requires r != nil && r.pkg != nil
+//@   at! `append(imps, Import{name, path})` requires len(imps) == idx2 && arg1.ImportPath == path && arg1.Alias == name
+//@   at `assign name` requires rhs0 == "" || rhs0 == i.Name.Name
+//@   loop 2: invariant len(imps) == idx2
